@@ -19,9 +19,10 @@ func init() {
 			"(R2) Module.prep/start/stop are launched only from the three driver loops and only on the statusReady arm of the matching readiness predicate of the same module; " +
 			"(R3) Module.status is written only by the six lifecycle sites, under the module lock, each transient state only past the test of its predecessor state and each final state only on the success edge of the control function; " +
 			"(R4) a routine that entered a blocking state (Starting/Stopping) stores a non-blocking state on every path before it reports; " +
-			"(R7) the completion that lets a stopping module be marked offline requires the stop routine to have ended and all work counters to be zero (truth table shared with C05-R3); (R5) driver order (dependencies linked, prep, enabled-tree, start; tree, stop, start; shutdown flag, stop) under mgmtLock, registration refused once locked; (R6) the fix-point loops return success only when nothing is pending or waiting. " +
+			"(R7) the completion that lets a stopping module be marked offline requires the stop routine to have ended and all work counters to be zero (truth table shared with C05-R3); (R5) driver order (dependencies linked, prep, enabled-tree, start; tree, stop, start; shutdown flag, stop) under mgmtLock, registration refused once locked; (R6) the fix-point loops return success only when nothing is pending or waiting, and the stop pass is never left (with or without an error) while a launched stop is unreported; (R8) the per-module stop sequence ctrlFuncRunning.Set < stopFlag.Set < cancelCtx < stop function < wait < report (shared with C05-R1): a module that completes its stop early lets its dependencies stop while it still runs. " +
 			"NOT decided: real interleavings of concurrently starting modules, exactly-once stop over all histories, panics inside routines (C06).",
-		Rules: []ruleFn{c01R1, c01R2, c01R3, c01R4, c01R5, c01R6, func(c *Ctx, r *Report) { stopCompletionRule(c, r, "C01-R7") }},
+		Rules: []ruleFn{c01R1, c01R2, c01R3, c01R4, c01R5, c01R6, func(c *Ctx, r *Report) { stopCompletionRule(c, r, "C01-R7") },
+			func(c *Ctx, r *Report) { stopSequenceRule(c, r, "C01-R8") }},
 	})
 }
 
@@ -602,10 +603,17 @@ func c01R6(c *Ctx, r *Report) {
 			return isC && v == 0 && isIntCounter(bo.X)
 		}}
 		k := 0
+		kAny := 0
 		eachInstr(fn, func(in ssa.Instruction) {
 			ret, ok := in.(*ssa.Return)
 			if !ok {
 				return
+			}
+			if name == "modules.stopModules" {
+				// the shutdown pass must not be left - with or without an error - while stop
+				// routines it launched are still unreported: a failed stop does not excuse the others.
+				kAny++
+				c.RequireGuards(r, rule, fmt.Sprintf("%s / return #%d leaves no launched stop unreported", name, kAny), fn, ret, pendingGuard)
 			}
 			v := retVal(ret, 0)
 			// success-like returns: nil constant, or a variable (lastErr) - not a fresh fmt.Errorf / rep.err
